@@ -584,6 +584,12 @@ def _execute(trace, res, solver):
             return
         if expect_ok and not faulted:
             if raised is not None:
+                # the loop also calculates the members with the values they hold BEFORE the couplings act (initial runs):
+                # if that state is infeasible (or needs more than the iteration budget) the failure is legitimate
+                twins0 = _twin_nets(trace, Model(trace), kw, solver)
+                if not all(t_[1] == "ok" for t_ in twins0.values()):
+                    res.count("probe:initial-state-infeasible")
+                    return
                 res.violate("C20", "C20/converged-flag:feasible-reported-failed:%s" % type(raised).__name__, repr(raised)[:200])
                 return
             _check_written(res, nets, model, "control", cps)
